@@ -14,6 +14,9 @@ Definition name := Z.
 Record comp : Type := mkcomp { c_start : Z; c_stop : Z; c_step : Z; c_mul : Z; c_add : Z }.
 Definition comp_fun (c : comp) (i : Z) : Z := (i * c_mul c + c_add c)%Z.
 
+(* one right-hand side of a tuple assignment: a list name or a list literal *)
+Inductive rhs : Type := RVar (y : name) | RLit (items : list Z).
+
 Inductive stmt : Type :=
 | LDeclLit (x : name) (items : list Z)      (* first `x = [..]` before the main loop: global with initialiser *)
 | LDeclComp (x : name) (c : comp)           (* first `x = [.. for ..]` before the loop: global, `x = from_range(..);` in setup *)
@@ -28,7 +31,16 @@ Inductive stmt : Type :=
 | LLocalDeclLit (x : name) (items : list Z) (* first `x = [..]` inside the main loop: local of loop() *)
 | LLocalDeclComp (x : name) (c : comp)      (* first `x = [.. for ..]` inside the loop *)
 | LCallGet (x : name) (i : Z)               (* r = f(x, i) with  def f(xs, k): return xs[k]   (by-value parameter) *)
-| LCallAppend (x : name) (v : Z).           (* r = g(x, v) with  def g(xs, v): xs.append(v); return xs[0] *)
+| LCallAppend (x : name) (v : Z)            (* r = g(x, v) with  def g(xs, v): xs.append(v); return xs[0] *)
+| LAppendRef (x y : name) (i : Z)           (* x.append(y[i]): __redu_list_append(x, __redu_list_get(y, i)) - `value` is a
+                                               reference into y's buffer; y may be x *)
+| LRemoveRef (x y : name) (i : Z)           (* x.remove(y[i]) *)
+| LTuple (xs : list name) (rs : list rhs)   (* x1, .., xn = r1, .., rn : struct-copy temporaries __tmp_assign_k = r_k (left to
+                                               right), then PLAIN assignments x_k = __tmp_assign_k (pointer copies, nothing is
+                                               freed) resp. declarations of the names not yet declared (parser.py 1930-2018) *)
+| LAssignRet (x y : name).                  (* x = ident(y) with  def ident(xs): return xs  - x declared:
+                                               __redu_list_assign(x, ident(y)), the source is a temporary struct copy of y
+                                               (so &dest != &source even when y is x);  else  __redu_list<T> x = ident(y); *)
 
 (* ------------------------------------------------------------------ environments *)
 Definition env (A : Type) := list (name * A).
@@ -74,6 +86,27 @@ Definition f_declare (in_loop : bool) (st : fstate) (h : heap) (x : name) (l : l
 
 Definition comp_list (h : heap) (c : comp) : res (heap * lval) :=
   list_from_range h (c_start c) (c_stop c) (c_step c) (comp_fun c).
+
+(* the temporaries of a tuple assignment, left to right *)
+Fixpoint f_rhs (st : fstate) (h : heap) (rs : list rhs) : res (heap * list lval) :=
+  match rs with
+  | [] => Safe (h, [])
+  | RVar y :: r =>
+      do a <- f_rhs st h r; let '(h1, ts) := a in Safe (h1, f_lookup st y :: ts)
+  | RLit items :: r =>
+      do m <- list_make h items; let '(h0, t) := m in
+      do a <- f_rhs st h0 r; let '(h1, ts) := a in Safe (h1, t :: ts)
+  end.
+
+(* x_k = __tmp_assign_k;  one after the other *)
+Fixpoint f_tuple_store (in_loop : bool) (st : fstate) (xs : list name) (ts : list lval) : fstate :=
+  match xs, ts with
+  | x :: xr, t :: tr =>
+      let st1 := if f_declared st x then f_store st (f_heap st) x t
+                 else f_declare in_loop st (f_heap st) x t in
+      f_tuple_store in_loop st1 xr tr
+  | _, _ => st
+  end.
 
 (* one statement; the second component is what it prints *)
 Definition f_exec (in_loop : bool) (st : fstate) (s : stmt) : res (fstate * list Z) :=
@@ -125,6 +158,20 @@ Definition f_exec (in_loop : bool) (st : fstate) (s : stmt) : res (fstate * list
       do r <- list_append h xs v; let '(h1, xs1) := r in
       do w <- list_get h1 xs1 0;
       Safe (mkf h1 (f_glob st) (f_loc st), [w])      (* xs1 dies without freeing; x keeps its old pointer *)
+  | LAppendRef x y i =>
+      do r <- list_append_a h (f_lookup st x) (ARef (f_lookup st y) i); let '(h1, l) := r in
+      Safe (f_store st h1 x l, [])
+  | LRemoveRef x y i =>
+      do r <- list_remove_a h (f_lookup st x) (ARef (f_lookup st y) i); let '(h1, l) := r in
+      Safe (f_store st h1 x l, [])
+  | LTuple xs rs =>
+      do r <- f_rhs st h rs; let '(h1, ts) := r in
+      Safe (f_tuple_store in_loop (mkf h1 (f_glob st) (f_loc st)) xs ts, [])
+  | LAssignRet x y =>
+      if f_declared st x then
+        do r <- list_assign h (f_lookup st x) (f_lookup st y) false; let '(h1, l) := r in
+        Safe (f_store st h1 x l, [])
+      else Safe (f_declare in_loop st h x (f_lookup st y), [])
   end.
 
 Fixpoint f_block (in_loop : bool) (st : fstate) (ss : list stmt) : res (fstate * list Z) :=
@@ -202,13 +249,50 @@ Fixpoint remove_first (v : Z) (l : list Z) : option (list Z) :=
 Definition py_range (c : comp) : list Z :=
   map (comp_fun c) (range_vals (c_start c) (c_step c) (range_count (c_start c) (c_stop c) (c_step c))).
 
+(* the values of a tuple's right-hand sides, left to right (a literal is a new object) *)
+Fixpoint p_rhs (st : pstate) (objs : list (list Z)) (rs : list rhs) : pres (list (list Z) * list nat) :=
+  match rs with
+  | [] => POk (objs, [])
+  | RVar y :: r =>
+      pdo o <- p_ref st y; pdo a <- p_rhs st objs r; let '(ob1, os) := a in POk (ob1, o :: os)
+  | RLit items :: r =>
+      pdo a <- p_rhs st (objs ++ [items]) r; let '(ob1, os) := a in POk (ob1, length objs :: os)
+  end.
+
+Fixpoint p_tuple_bind (in_loop : bool) (st : pstate) (xs : list name) (os : list nat) : pstate :=
+  match xs, os with
+  | x :: xr, o :: orr => p_tuple_bind in_loop (p_bind in_loop st (p_objs st) x o) xr orr
+  | _, _ => st
+  end.
+
 Definition p_exec (in_loop : bool) (st : pstate) (s : stmt) : pres (pstate * list Z) :=
   match s with
   | LDeclLit x items | LAssignLit x items | LLocalDeclLit x items => POk (p_new in_loop st x items, [])
   | LDeclComp x c | LAssignComp x c | LLocalDeclComp x c =>
       if (c_step c =? 0)%Z then PRaise ValueError else POk (p_new in_loop st x (py_range c), [])
-  | LAssignVar x y =>
+  | LAssignVar x y | LAssignRet x y =>
       pdo o <- p_ref st y; POk (p_bind in_loop st (p_objs st) x o, [])
+  | LAppendRef x y i =>
+      pdo o <- p_ref st x; pdo oy <- p_ref st y;
+      match py_index (length (p_obj st oy)) i with
+      | Some k => POk (mkp (upd (p_objs st) o (p_obj st o ++ [nth k (p_obj st oy) 0%Z])) (p_glob st) (p_loc st), [])
+      | None => PRaise IndexError
+      end
+  | LRemoveRef x y i =>
+      pdo o <- p_ref st x; pdo oy <- p_ref st y;
+      match py_index (length (p_obj st oy)) i with
+      | Some k =>
+          match remove_first (nth k (p_obj st oy) 0%Z) (p_obj st o) with
+          | Some cs => POk (mkp (upd (p_objs st) o cs) (p_glob st) (p_loc st), [])
+          | None => PRaise ValueError
+          end
+      | None => PRaise IndexError
+      end
+  | LTuple xs rs =>
+      pdo a <- p_rhs st (p_objs st) rs; let '(ob1, os) := a in
+      if length xs =? length os
+      then POk (p_tuple_bind in_loop (mkp ob1 (p_glob st) (p_loc st)) xs os, [])
+      else PRaise ValueError
   | LAppend x v =>
       pdo o <- p_ref st x;
       POk (mkp (upd (p_objs st) o (p_obj st o ++ [v])) (p_glob st) (p_loc st), [])
@@ -281,10 +365,35 @@ Definition p_live (st : pstate) : nat :=
    Excluded: `x = y` into a new or another name (struct copy / clone), re-assignment from
    a literal or comprehension (temporary never freed), lists local to loop(), a function
    that mutates its by-value list parameter. *)
+Fixpoint rhs_vars (rs : list rhs) : option (list name) :=
+  match rs with
+  | [] => Some []
+  | RVar y :: r => match rhs_vars r with Some ys => Some (y :: ys) | None => None end
+  | RLit _ :: _ => None
+  end.
+
+Fixpoint nodupb (l : list name) : bool :=
+  match l with
+  | [] => true
+  | a :: r => negb (existsb (Z.eqb a) r) && nodupb r
+  end.
+
+(* x1, .., xn = y1, .., yn  where the right-hand sides are the same declared names in another order
+   (swap, rotation, any permutation): a pointer exchange, every buffer keeps exactly one owner *)
+Definition tuple_ok (decl xs : list name) (rs : list rhs) : bool :=
+  match rhs_vars rs with
+  | Some ys =>
+      (length xs =? length ys) && nodupb xs && nodupb ys &&
+      forallb (fun y => existsb (Z.eqb y) xs) ys && forallb (fun x => existsb (Z.eqb x) decl) xs
+  | None => false
+  end.
+
 Definition use_ok (decl : list name) (s : stmt) : bool :=
   match s with
   | LAppend x _ | LRemove x _ | LGet x _ | LSet x _ _ | LCallGet x _ => existsb (Z.eqb x) decl
   | LAssignVar x y => Z.eqb x y && existsb (Z.eqb x) decl
+  | LAppendRef x y _ | LRemoveRef x y _ => existsb (Z.eqb x) decl && existsb (Z.eqb y) decl
+  | LTuple xs rs => tuple_ok decl xs rs
   | _ => false
   end.
 
@@ -320,7 +429,17 @@ Inductive sstmt : Type :=
 | SRemove (x : name) (v : Z)                (* x.remove(v) *)
 | SGet (x : name) (i : Z)                   (* mon.write(x[i]) *)
 | SCallGet (x : name) (i : Z)               (* mon.write(f(x, i)) *)
-| SCallAppend (x : name) (v : Z).           (* mon.write(g(x, v)) *)
+| SCallAppend (x : name) (v : Z)            (* mon.write(g(x, v)) *)
+| SAppendRef (x y : name) (i : Z)           (* x.append(y[i]) *)
+| SRemoveRef (x y : name) (i : Z)           (* x.remove(y[i]) *)
+| STuple (xs : list name) (rs : list rhs)   (* x1, .., xn = r1, .., rn *)
+| SRet (x y : name).                        (* x = ident(y) *)
+
+Fixpoint add_new (decl xs : list name) : list name :=
+  match xs with
+  | [] => decl
+  | x :: r => add_new (if existsb (Z.eqb x) decl then decl else decl ++ [x]) r
+  end.
 
 Definition elab1 (in_loop : bool) (decl : list name) (s : sstmt) : stmt * list name :=
   match s with
@@ -336,6 +455,10 @@ Definition elab1 (in_loop : bool) (decl : list name) (s : sstmt) : stmt * list n
   | SGet x i => (LGet x i, decl)
   | SCallGet x i => (LCallGet x i, decl)
   | SCallAppend x v => (LCallAppend x v, decl)
+  | SAppendRef x y i => (LAppendRef x y i, decl)
+  | SRemoveRef x y i => (LRemoveRef x y i, decl)
+  | STuple xs rs => (LTuple xs rs, add_new decl xs)
+  | SRet x y => (LAssignRet x y, if existsb (Z.eqb x) decl then decl else decl ++ [x])
   end.
 
 Fixpoint elab (in_loop : bool) (decl : list name) (ss : list sstmt) : list stmt * list name :=
